@@ -95,7 +95,7 @@ CHECKS["C07"] = dict(
     text="Lean proves: any four letters bring the input decoder from ANY state to idle (and three do not suffice - witness); two idle states with different scratch decode every stream and every delivery sequence identically (bisimulation), hence after garbage + 4 letters any suffix decodes as on a fresh terminal; every control sequence the decoder emits has at least one argument (the guard for arguments[0]); the markup decoder never yields more elements than input characters, consumes at least one character per element (termination), and never indexes the 38-entry handler table out of range. Termination of every model function is checked by Lean. 'Without undefined behaviour' on the compiled code is supported, not proved: every stream of C05/C06/C10 plus hostile streams (all strings over 11 byte classes up to length 4/6 for both decoders, random to 4096 bytes, digit runs to 10^5) runs under ASan+UBSan with no recovery; an abort is a violation with the input as replay. Partial for memory safety.",
     note=INNOTE + " Memory safety/UB freedom of the compiled C++ is outside the model (sanitised execution only).", technique="Lean 4 proof (resynchronisation, bisimulation, bounds) + sanitised hostile-input execution", ref="§5 C07")
 CHECKS["C20"] = dict(
-    text="The full statement (every abstract-key token is produced only by a control sequence that designates that key per the xterm tables - liberally ignoring extra parameters/markers - or by a line ending; a single ordinary idle byte is reported as that byte) is stated as a Prop and PROVED FALSE of the code on concrete witnesses: bytes 0x80-0x96 except 0x8F come out as cursor_up..f12 (static_cast<vk>). Proved instead (C20_partial): every abstract-key token has a designating sequence, is a line ending, or carries a raw byte from exactly that 22-byte set - for parameters of ANY size; and single ordinary bytes are reported as themselves, abstract exactly on the colliding set. The byte collision needs an API change (wider vk): 22 known findings, matched by signature so any other C20 violation is still reported. A second defect the proof attempt exposed - a keypad/modifier/repeat parameter >= 2^31 wrapped in atoi (ESC[4294967307~ -> F1) - was repaired in /repo (fix 1071cf8: clamp), the exclusion was removed from the theorem and C20_large_parameter_names_no_key states the repaired behaviour. All 256 idle bytes in idle/after CR/after LF and the whole key space are judged by the oracle. The key tables the model uses are proved equal to the tables regenerated from the .cpp sources on every run (TablesTie).",
+    text="The full statement (every abstract-key token is produced only by a control sequence that designates that key per the xterm tables - liberally ignoring extra parameters/markers - or by a line ending; a single ordinary idle byte is reported as that byte) is stated as a Prop and PROVED FALSE of the code on concrete witnesses: bytes 0x80-0x96 except 0x8F come out as cursor_up..f12 (static_cast<vk>). Proved instead (C20_partial): every abstract-key token has a designating sequence, is a line ending, or carries a raw byte from exactly that 22-byte set - for parameters of ANY size; and single ordinary bytes are reported as themselves, abstract exactly on the colliding set. The byte collision needs an API change (wider vk): 22 known findings, matched by signature so any other C20 violation is still reported. A second defect the proof attempt exposed - a keypad/modifier/repeat parameter >= 2^31 wrapped in atoi (ESC[4294967307~ -> F1) - was repaired in /repo (fix 1071cf8: clamp), the exclusion was removed from the theorem and C20_large_parameter_names_no_key states the repaired behaviour. All 256 idle bytes in idle/after CR/after LF and the whole key space are judged by the oracle. The key tables the model uses are proved equal to the tables regenerated from the .cpp sources on every run (TablesTie). New (C20_faithful / C20_faithful_ctrl, by an invariant over the decoder's scratch members and induction over the stream): for EVERY byte stream from an idle decoder with arbitrary scratch, the control sequence an abstract-key token carries (no private marker) was actually sent - its spelling (meta ESC, 7- or 8-bit introducer, parameters separated by ';', final byte) occurs contiguously in the bytes fed; the oracle applies the same test to every real token of partitioned streams (empty deliveries, synchronous channel).",
     note=INNOTE, technique="Lean 4 proof of the partial statement + proved negation of the full statement on concrete witnesses; exhaustive idle-byte and key-space oracle with known-findings matching", ref="§5 C20")
 
 NOT_YET = {}
